@@ -1,6 +1,7 @@
 (* C13 property theorems (statements only; proofs in RestartProofs/Examples). *)
 From Coq Require Import List NArith Bool Arith.
-From LV Require Import Arb.RestartModel Arb.RestartExec Arb.RestartProofs Arb.RestartExamples.
+From LV Require Import Arb.RestartModel Arb.RestartExec Arb.RestartProofs Arb.RestartInv
+  Arb.RestartProgress Arb.RestartExamples.
 Import ListNotations.
 
 (* Every upstream resolution / final htlc outcome / resolved notification that
@@ -32,6 +33,72 @@ Theorem C13_resolved_only_when_done : forall (sc : scen) (h : list ev),
   (forall k, d_con (dk s) k = None)
   /\ (m_fin (mm s) <> None -> m_state (mm s) = SFull).
 Proof. intros sc h Hwf. exact (resolved_only_when_done sc Hwf h). Qed.
+
+(* SAME OUTCOME.  Any history that marks the channel fully resolved -- any
+   interleaving of goroutine micro steps, a stop at ANY instant (between any
+   two durable writes, between an upstream message and its checkpoint), any
+   number of restarts -- has produced exactly the upstream resolutions
+   (Fail / Settle per htlc), final htlc outcomes and NotifyChannelResolved,
+   and exactly the resolver reports, of the uninterrupted run.  Own
+   ForceCloseChan / PublishTx calls are excluded (a restart may re-publish).
+   Exception F2 (precisely): scenarios where BOTH the persisted commit set
+   yields chain actions on a chain trigger (dangling htlc) AND the
+   StateDefault step has a dust fail-back set; refuted for those below. *)
+Theorem C13_same_outcome : forall (sc : scen) (h : list ev),
+  wf_scen sc = true ->
+  (sc_cs_acts sc = false \/ sc_fails_default sc = []) ->
+  terminal (run sc h) = true ->
+  (forall o, is_tx_out o = false ->
+     (In o (outs (run sc h)) <-> In o (expected_outs sc)))
+  /\ (forall x, In x (d_rep (dk (run sc h))) <-> In x (resolver_reps sc)).
+Proof.
+  intros sc h Hwf Hd Ht.
+  destruct (terminal_complete sc Hwf Hd h Ht) as [H1 H2]. split.
+  - intros o Ho. split; [intros Hin; eapply outputs_sound; eauto|apply H1].
+  - intros x. split; [apply reps_sound|apply H2].
+Qed.
+
+(* The same, stated without the model's [expected_outs]: a crashy terminal
+   history h and ANY crash-free terminal history h0 (the uninterrupted run,
+   which exists by C13_progress with h = []) agree on every upstream output
+   and every report. *)
+Theorem C13_same_outcome_as_uninterrupted : forall (sc : scen) (h0 h : list ev),
+  wf_scen sc = true ->
+  (sc_cs_acts sc = false \/ sc_fails_default sc = []) ->
+  nocrash h0 -> terminal (run sc h0) = true -> terminal (run sc h) = true ->
+  (forall o, is_tx_out o = false ->
+     (In o (outs (run sc h)) <-> In o (outs (run sc h0))))
+  /\ (forall x, In x (d_rep (dk (run sc h))) <-> In x (d_rep (dk (run sc h0)))).
+Proof.
+  intros sc h0 h Hwf Hd _ Ht0 Ht.
+  destruct (C13_same_outcome sc h Hwf Hd Ht) as [A1 A2].
+  destruct (C13_same_outcome sc h0 Hwf Hd Ht0) as [B1 B2]. split.
+  - intros o Ho. rewrite (A1 o Ho), (B1 o Ho). reflexivity.
+  - intros x. rewrite (A2 x), (B2 x). reflexivity.
+Qed.
+
+(* PROGRESS.  Every history (stops anywhere, any number of them) can be
+   extended WITHOUT any further stop to one that marks the channel fully
+   resolved: no reachable configuration is blocked, in particular none
+   reached by a restart.  (No F2 restriction: F2 loses an output, not
+   termination.) *)
+Theorem C13_progress : forall (sc : scen) (h : list ev),
+  wf_scen sc = true ->
+  exists h', nocrash h' /\ terminal (run sc (h ++ h')) = true.
+Proof. intros sc h Hwf. exact (progress sc Hwf h). Qed.
+
+(* The window of the repaired finding C13-F1 (commit 2099ea4): a stop right
+   after a resolver's final Checkpoint(resolved = true) and before
+   log.ResolveContract.  After the restart the reloaded contract is removed
+   from the log, the arbitrator is signalled, and no other contract is touched. *)
+Theorem C13_resolved_contract_recovered : forall (sc : scen) (h : list ev) (k : N) (r : rspec),
+  wf_scen sc = true -> find_spec sc k = Some r ->
+  d_full (dk (run sc h)) = false -> d_state (dk (run sc h)) = SWaiting ->
+  d_con (dk (run sc h)) k = Some (length (r_stages r)) ->
+  let s' := run sc (h ++ [ECrash; EStep TMain; EStep (TRes k)]) in
+  d_con (dk s') k = None /\ m_sigs (mm s') = 1%nat
+  /\ (forall k', k' <> k -> d_con (dk s') k' = d_con (dk (run sc h)) k').
+Proof. intros sc h k r Hwf. exact (resolved_contract_recovered sc h k r). Qed.
 
 (* REFUTED (finding C13-F2): "the terminal outcome equals the uninterrupted
    one" for scenarios with a dust fail-back set AND a persisted commit set
